@@ -119,7 +119,11 @@ func c18One(c *run.C) {
 				if cd.Name == "json" {
 					numeric, hasDigit = jsonNumericTail(in[:cut])
 				}
-				if !(numeric && hasDigit) {
+				// a number prefix is a complete (lenient) number only at top
+				// level; inside an open array or object the stream is cut
+				// whatever the number looks like
+				topLevelScalar := jsonTailAtTopLevel(in[:cut])
+				if !(numeric && hasDigit && topLevelScalar) {
 					truncated, truncAt, data = true, cut, in[:cut]
 				}
 			}
